@@ -555,6 +555,7 @@ fn render_layout(ts: &[Tk], rng: &mut Rng, class: LayoutClass) -> String {
 // ------------------------------------------------------------------------------------------
 
 fn run_impl(text: &str) -> Result<AstNode, String> {
+  crate::util::note_case(text);
   let s = scope();
   match guarded(|| dmntk_feel_parser::parse_expression(&s, text, false)) {
     Ok(Ok(n)) => Ok(n),
@@ -564,6 +565,7 @@ fn run_impl(text: &str) -> Result<AstNode, String> {
 }
 
 fn run_impl_ut(text: &str) -> Result<AstNode, String> {
+  crate::util::note_case(text);
   let s = scope();
   match guarded(|| dmntk_feel_parser::parse_unary_tests(&s, text, false)) {
     Ok(Ok(n)) => Ok(n),
